@@ -55,9 +55,10 @@ type aliasEv struct {
 }
 
 type aliasSummary struct {
-	writes   map[int]bool // parameter positions (receiver excluded) the function may write or append through
-	modelled map[int]bool // … and the translation returns the written value (mutParam): a write the model sees
-	returns  map[int]bool // parameter positions its slice results may share storage with
+	writes     map[int]bool // parameter positions (receiver excluded) the function may write or append through
+	modelled   map[int]bool // … and the translation returns the written value (mutParam): a write the model sees
+	recvWrites bool         // writes ELEMENTS reachable from its receiver (re-binding the receiver, `*s = (*s)[n:]`, is not a write)
+	returns    map[int]bool // parameter positions its slice results may share storage with
 }
 
 type aliasAn struct {
@@ -118,6 +119,14 @@ func (an *aliasAn) window(e ast.Expr) (string, int, int, bool) {
 	switch x := e.(type) {
 	case *ast.ParenExpr:
 		return an.window(x.X)
+	case *ast.UnaryExpr:
+		if x.Op == token.AND { // &x passed as an out-parameter
+			return an.window(x.X)
+		}
+	case *ast.CallExpr:
+		if tv, ok := an.t.info.Types[x.Fun]; ok && tv.IsType() && len(x.Args) == 1 {
+			return an.window(x.Args[0])
+		}
 	case *ast.SliceExpr:
 		p, lo0, _, ok := an.window(x.X)
 		if !ok {
@@ -330,7 +339,11 @@ func (an *aliasAn) call(c *ast.CallExpr, dst string) {
 	}
 	if recv != nil {
 		if p, ok := pathOf(recv); ok && callee != nil && callee.mutRecv {
-			an.add('w', p, "", -1, -1, c.End(), t.src(c))
+			if sm := an.sums[callee]; sm == nil || sm.recvWrites {
+				an.add('w', p, "", -1, -1, c.End(), t.src(c))
+			} else {
+				an.reads(recv) // the callee only re-binds its receiver (a slice header, a field)
+			}
 		} else {
 			an.reads(recv)
 		}
@@ -341,6 +354,32 @@ func (an *aliasAn) call(c *ast.CallExpr, dst string) {
 	sum := an.sums[callee]
 	if sum == nil {
 		return
+	}
+	// an out-parameter of slice type may share storage, after the call, with any other slice argument or the receiver
+	if sig, ok := callee.obj.Type().(*types.Signature); ok {
+		for i, a := range args {
+			if i >= sig.Params().Len() {
+				break
+			}
+			pt, isPtr := sig.Params().At(i).Type().Underlying().(*types.Pointer)
+			if !isPtr || !isSliceish(pt.Elem()) {
+				continue
+			}
+			p, _, _, ok := an.window(a)
+			if !ok {
+				continue
+			}
+			for j, b := range args {
+				if q, _, _, ok2 := an.window(b); ok2 && j != i && q != p {
+					an.add('a', p, q, -1, -1, c.End(), t.src(c))
+				}
+			}
+			if recv != nil {
+				if q, _, _, ok2 := an.window(recv); ok2 && q != p {
+					an.add('a', p, q, -1, -1, c.End(), t.src(c))
+				}
+			}
+		}
 	}
 	for i, a := range args {
 		p, lo, hi, ok := an.window(a)
@@ -758,9 +797,16 @@ func aliasAnalyse(t *tr, m *fnMeta, sums map[*fnMeta]*aliasSummary) []string {
 		}
 		return set
 	}
+	recvName := ""
+	if m.decl.Recv != nil && len(m.decl.Recv.List) == 1 && len(m.decl.Recv.List[0].Names) == 1 {
+		recvName = m.decl.Recv.List[0].Names[0].Name
+	}
 	for _, e := range an.evs {
 		if e.kind == 'w' || e.kind == 'W' {
 			for q := range related(e.a) {
+				if recvName != "" && touches(q, recvName) {
+					sum.recvWrites = true
+				}
 				if i, ok := an.params[q]; ok {
 					sum.writes[i] = true
 				}
